@@ -23,6 +23,8 @@ pub struct Profile {
     /// log only the observation-relative lines (after every call); the calls themselves are the
     /// same as without this flag for the same seed
     pub obs_only: bool,
+    /// run every set-compatible call on a PrefixSet as well and require the same outcome as on the map
+    pub with_set: bool,
 }
 
 impl Profile {
@@ -38,6 +40,7 @@ impl Profile {
             obs_every: 25,
             tree_every: 5,
             obs_only: false,
+            with_set: false,
         };
         let (name, obs_only) = match name.strip_suffix("+obs") {
             Some(n) => (n, true),
@@ -46,6 +49,7 @@ impl Profile {
         let base = Profile { obs_only, ..base };
         match name {
             "core" => Profile { entry: false, writes: false, views: false, ..base },
+            "set" => Profile { entry: false, writes: false, views: false, with_set: true, ..base },
             "pairs" => Profile { pairs: true, entry: false, writes: false, views: false, obs_every: 60, ..base },
             "viewmut" => Profile { view_mut: true, ..base },
             "faults" => Profile { retain_panic: true, ..base },
@@ -330,6 +334,7 @@ pub fn drive<P: PT>(seed: u64, runs: usize, events: usize, prof: &Profile, out: 
         let mut g = Gen { rng: &mut rng, tw: P::TW as usize, keys, queries, hosts: P::HOSTS };
         let mut a: PrefixMap<P, i32> = PrefixMap::new();
         let mut b: PrefixMap<P, i32> = PrefixMap::new();
+        let mut sset: PrefixSet<P> = PrefixSet::new();
         writeln!(out, "{}", json!({"a": "Reset"})).unwrap();
         total += 1;
         let mut drifted = false;
@@ -420,6 +425,12 @@ pub fn drive<P: PT>(seed: u64, runs: usize, events: usize, prof: &Profile, out: 
                     json!({"a": a_, "p": g.query()})
                 }
             };
+            if prof.with_set {
+                // a set stores no values: every value is 1
+                if ev.get("v").is_some() {
+                    ev["v"] = json!(1);
+                }
+            }
             let name = ev["a"].as_str().unwrap().to_string();
             *per_action.entry(name.clone()).or_default() += 1;
             total += 1;
@@ -445,6 +456,19 @@ pub fn drive<P: PT>(seed: u64, runs: usize, events: usize, prof: &Profile, out: 
             let snap = acct(&target.verif_snapshot());
             let tree = if prof.tree_every > 0 && i % prof.tree_every == 0 { Some(Coll::<P>::tree(target, &ctx)) } else { None };
             max_entries = max_entries.max(target.len());
+            let mut o = o;
+            if prof.with_set && !on_b {
+                // the same call on a PrefixSet must behave like the map with unit values
+                if let Some(os) = apply::<P, PrefixSet<P>>(&mut sset, &ev, &ctx) {
+                    let same = os.ret == o.ret && os.pan == o.pan
+                        && Coll::<P>::tree(&sset, &ctx) == Coll::<P>::tree(&*target, &ctx)
+                        && Coll::<P>::len(&sset) == target.len()
+                        && acct(&sset.verif_snapshot()) == acct(&target.verif_snapshot());
+                    if !same {
+                        o = Outcome { ret: json!(["SET-DIFFERS", os.ret, o.ret]), pan: o.pan };
+                    }
+                }
+            }
             if !prof.obs_only {
                 log_line(out, &ev, &o, Some(snap), tree);
             } else if !on_b {
